@@ -2,7 +2,9 @@
 //! arkharness: runs the real arkworks code on structured inputs and prints one
 //! `<op line> => <impl result>` per operation (see /verif/DESIGN.md §2.3/2.4).
 mod util;
+mod zoo;
 mod c15;
+mod c01;
 
 fn main() {
     std::panic::set_hook(Box::new(|_| {})); // silence panic messages from catch_unwind'ed ops
@@ -10,10 +12,12 @@ fn main() {
     if args.len() < 2 { eprintln!("usage: arkharness <prop> [quick|thorough] [seed]"); std::process::exit(2); }
     let thorough = args.get(2).map(|s| s == "thorough").unwrap_or(false);
     let seed: u64 = args.get(3).and_then(|s| s.parse().ok()).unwrap_or(0);
+    let only: Option<String> = args.get(4).cloned();
     let mut rng = util::Rng::new(seed);
     let mut out = util::Out::new();
     match args[1].as_str() {
         "C15" => c15::run(&mut rng, thorough, &mut out),
+        "C01" => c01::run(&mut rng, thorough, &mut out, &only),
         p => { eprintln!("unknown property {}", p); std::process::exit(2); }
     }
     out.flush();
